@@ -69,8 +69,12 @@ def struct_prog(src, name, prefix):
     if len(ms) != 1:
         raise Unrecognised("%s::%s: struct not found exactly once" % (prefix, name))
     head = src[max(0, ms[0].start() - 400):ms[0].start()]
-    if not re.search(r"#\[derive\([^\]]*\bNom\b[^\]]*\)\]\s*(?:" + ATTR + r"\s*)*$", head):
-        raise Unrecognised("%s::%s does not derive Nom" % (prefix, name))
+    hm = re.search(r"((?:#\[(?:[^\[\]]|\[[^\]]*\])*\]\s*)+)$", head)
+    sattrs = re.sub(r"\s+", "", hm.group(1)) if hm else ""
+    # exactly one derive list containing Nom and no other struct-level attribute (`#[nom(LittleEndian)]` and friends change
+    # what the derive generates for every field; a serde container attribute changes the JSON)
+    if not re.fullmatch(r"#\[derive\([A-Za-z,]*\)\]", sattrs) or "Nom" not in re.split(r"[(),]", sattrs):
+        raise Unrecognised("%s::%s: struct-level attributes %r" % (prefix, name, sattrs))
     prog = []
     for attrs, fname, ty in _fields(_block(src, ms[0].end() - 1), "%s::%s" % (prefix, name)):
         nom = [re.sub(r"\s+", "", a) for a in attrs if a.startswith("#[nom")]
@@ -89,7 +93,11 @@ def struct_prog(src, name, prefix):
             else:
                 raise Unrecognised("%s::%s.%s: type %s without attribute" % (prefix, name, fname, ty))
             continue
-        if re.fullmatch(r"#\[nom\(Value\(\w+::from\(\w+\)\)\)\]", a):
+        mv = re.fullmatch(r"#\[nom\(Value\((\w+)::from\((\w+)\)\)\)\]", a)
+        if mv:
+            # the derived enum value: the model computes it from `field_type_number` with the enum the field is declared as
+            if mv.group(2) != "field_type_number" or mv.group(1) != ty or fname != "field_type" or not any(f[0] == "field_type_number" for f in prog):
+                raise Unrecognised("%s::%s.%s: derived value %s" % (prefix, name, fname, a))
             prog.append([fname, "value"])
             continue
         m = re.fullmatch(r'#\[nom\(Count="(\w+)"\)\]', a)
